@@ -29,9 +29,11 @@ class Potential_Form_Registry(object):
        :param register_pymath_functions: If `True` make functions from the python math module available in cexprtk expressions."""
 
     self._potential_forms = {}
+    self._standard_names = set()
 
     if register_standard:
       self._potential_forms.update(self._register_standard())
+      self._standard_names.update(self._potential_forms.keys())
 
     self._potential_forms.update(self._build_table_forms(cfg.table_form))
 
@@ -70,6 +72,8 @@ class Potential_Form_Registry(object):
     from .. import potentialforms
     for name, potential_form in inspect.getmembers(potentialforms, _iscallable):
       name = self._make_standard_name(name)
+      if name in potential_forms and not name in self._standard_names:
+        raise Potential_Form_Registry_Exception("A [Table-Form] or [Potential-Form] has the same label as a standard potential form: '{0}'".format(name))
       if not name in potential_forms:
         pf = Existing_Potential_Form(name, potential_form)
         potential_forms[name] = pf
